@@ -31,7 +31,7 @@ Section PhaseBlind.
   Proof. unfold tracked. rewrite Hsame. reflexivity. Qed.
 
   Lemma bs_muts_same right : forall q s,
-    bs_muts es unphased nind mpos mnode right q s = bs_muts es unphased nind mpos mnode' right q s.
+    bs_muts unphased nind mpos mnode right q s = bs_muts unphased nind mpos mnode' right q s.
   Proof. induction q as [|m q IH]; intro s; cbn [bs_muts]; [reflexivity|].
     rewrite tracked_same. destruct (mpos m <? right); [|reflexivity]. apply IH. Qed.
 
@@ -40,7 +40,7 @@ Section PhaseBlind.
     block_singletons es unphased nind mpos mnode' L M insq remq.
   Proof. unfold block_singletons, bs_sweep.
     rewrite (loop_ext_after bs_state _ _ L (bs_rmv es unphased nind) (bs_ins es unphased nind)
-               (bs_after es unphased nind mpos mnode) (bs_after es unphased nind mpos mnode')).
+               (bs_after unphased nind mpos mnode) (bs_after unphased nind mpos mnode')).
     - reflexivity.
     - intros l r s. unfold bs_after. apply bs_muts_same. Qed.
 End PhaseBlind.
@@ -64,7 +64,7 @@ Section Phased.
   Definition quiet (s : bs_state) : Prop :=
     bs_blocks s = [] /\ bs_num s = 0 /\ bs_err s = 0 /\ forall m, bs_mblock s m = -1.
 
-  Lemma muts_quiet right : forall q s, quiet s -> quiet (bs_muts es unph nind mpos mnode right q s).
+  Lemma muts_quiet right : forall q s, quiet s -> quiet (bs_muts unph nind mpos mnode right q s).
   Proof. induction q as [|m q IH]; intros s Hs; cbn [bs_muts].
     - exact Hs.
     - rewrite tracked_none. destruct (mpos m <? right); [apply IH; exact Hs|exact Hs]. Qed.
@@ -87,7 +87,7 @@ Section Phased.
     pose (G := fun (_ _ : Z) (s : bs_state) => quiet s).
     assert (Hbody : forall left s, quiet s ->
               quiet (body bs_state kl kr L (bs_rmv es unph nind) (bs_ins es unph nind)
-                          (bs_after es unph nind mpos mnode) insq remq left s)).
+                          (bs_after unph nind mpos mnode) insq remq left s)).
     { intros left s Hq. unfold body, bs_after.
       assert (E1 : forall l s0, fold_left (fun s1 b => bs_rmv es unph nind left b s1) l s0 = s0)
         by (induction l as [|a l IH]; intro s0; cbn [fold_left]; [reflexivity|rewrite rmv_id; apply IH]).
@@ -97,12 +97,12 @@ Section Phased.
     assert (Gstep : forall prev left s, G prev left s -> prev < left -> nokey kl kr insq remq prev left ->
               more kl kr insq remq prev -> left <= L ->
               (fun s => negb (bs_err s =? 0))
-                (body bs_state kl kr L (bs_rmv es unph nind) (bs_ins es unph nind) (bs_after es unph nind mpos mnode) insq remq left s) = false ->
+                (body bs_state kl kr L (bs_rmv es unph nind) (bs_ins es unph nind) (bs_after unph nind mpos mnode) insq remq left s) = false ->
               G left (nxt kl kr L insq remq left)
-                (body bs_state kl kr L (bs_rmv es unph nind) (bs_ins es unph nind) (bs_after es unph nind mpos mnode) insq remq left s)).
+                (body bs_state kl kr L (bs_rmv es unph nind) (bs_ins es unph nind) (bs_after unph nind mpos mnode) insq remq left s)).
     { intros prev left s Hq _ _ _ _ _. apply Hbody. exact Hq. }
     assert (HG0 : G (-1) 0 (bs_init mpos M)) by (unfold G, quiet, bs_init; cbn; repeat split).
-    destruct (loop_sound bs_state kl kr L (bs_rmv es unph nind) (bs_ins es unph nind) (bs_after es unph nind mpos mnode)
+    destruct (loop_sound bs_state kl kr L (bs_rmv es unph nind) (bs_ins es unph nind) (bs_after unph nind mpos mnode)
                 (fun s => negb (bs_err s =? 0)) insq remq SI SR KI KR G Gstep (bs_init mpos M) HG0 HL) as [r [Hr HP]].
     unfold block_singletons, bs_sweep. fold kl kr. rewrite Hr.
     assert (Hq : quiet r).
